@@ -159,6 +159,10 @@ class DefDomain(TagDomain):
   # correlated literal tests must not produce unbound-variable reports
   fork = True
   max_states = 32
+  # an objective value compared with a bound that is still +inf is smaller:
+  # objective values are finite (assert_all_finite in the repository, NaN /
+  # inf outside the properties' quantifiers)
+  assume_finite_lt_inf = True
 
   def __init__(self, hypers):
     super().__init__()
@@ -271,6 +275,12 @@ class DefDomain(TagDomain):
                           self._facts(st)))
 
   def unbound_name(self, name, node, st):
+    if self.cur() is not None and self._best_so_far(name, self.cur()):
+      # the state that leaves the loop after an iteration without a
+      # checkpoint: at least one checkpoint is evaluated (output_iter <=
+      # max_iter is validated), and the first one binds the name
+      self.idioms.add((self.cur().key, 'best-so-far checkpoint'))
+      return _EMPTY
     self.problems.append(('unbound', name, self.site(node), self.cur(),
                           self._facts(st)))
     return _EMPTY
